@@ -83,6 +83,43 @@ func main() {
 		}
 		return
 	}
+	if *prop == "all" {
+		// development aid (seed matrix): one load, every property; evidence goes to the directory *evPath
+		kf, err := loadKnown(*known)
+		if err != nil {
+			fmt.Fprintln(os.Stderr, "mqttverif: known findings:", err)
+			os.Exit(2)
+		}
+		if *evPath == "" {
+			*evPath = os.TempDir() + "/mqttverif_all"
+		}
+		os.MkdirAll(*evPath, 0o755)
+		var ids []string
+		for id := range props {
+			ids = append(ids, id)
+		}
+		sort.Strings(ids)
+		worst := 0
+		for _, id := range ids {
+			p := props[id]
+			c.obs, c.floors, c.fnsSeen, c.sites = nil, map[string][2]int{}, map[*ssa.Function]bool{}, 0
+			code := func() (code int) {
+				defer func() {
+					if r := recover(); r != nil {
+						fmt.Fprintf(os.Stderr, "mqttverif: internal panic in rule for %s: %v\n%s\n", p.ID, r, debug.Stack())
+						code = 2
+					}
+				}()
+				p.Run(c)
+				return c.finish(p, kf, *evPath+"/"+p.ID+".json", seed, time.Now(), nil)
+			}()
+			fmt.Printf("== %s exit=%d\n", id, code)
+			if code > worst {
+				worst = code
+			}
+		}
+		os.Exit(worst)
+	}
 	p := props[*prop]
 	if p == nil {
 		fmt.Fprintf(os.Stderr, "mqttverif: unknown property %q\n", *prop)
